@@ -34,6 +34,7 @@ fn fmt_opaque() -> String { String::new() }
 
 def unit():
     u = VUnit('flp_lens', 'FLP type constructors and *_len accessors')
+    u.oracle = {'inject': 'src/vdaf/prio2.rs', 'file': 'guards_oracle.rs', 'test': 'verif_oracle_guards::oracle_histogram'}
     u.raw(PRELUDE, 'prelude')
     u.item(FLP, ['fn wire_poly_len'], ret='r', sig='''
 requires
@@ -113,6 +114,24 @@ requires
 ensures
     r as int == 2 * self.chunk_length as int,
 ''', before=[('self.chunk_length * 2', 'lemma_npo2_bounds(1 + self.gadget_calls as int);')])
+    u.raw('''
+// E3b: abstract field element (the encoder only moves the constants zero and one around)
+#[derive(Clone, Copy)]
+pub struct Fe(pub u64);
+fn fe_zero() -> Fe { Fe(0) }
+fn fe_one() -> Fe { Fe(1) }
+''', 'abstract-field')
+    u.item(T, ['impl<F, S> Type for Histogram<F, S>', 'fn encode_measurement'], ret='r', impl_header=IH,
+           rewrites=[(r'\bF::zero\(\)', 'fe_zero()', 1), (r'\bF::one\(\)', 'fe_one()', 1), (r'Vec<F>', 'Vec<Fe>', 1),
+                     (r'format!\((?:[^()]|\([^()]*\))*\)', 'fmt_opaque()', '*')],
+           sig='''
+requires
+    hist_wf(*self),
+ensures
+    // an out-of-range bucket is an error, never a panic; an in-range one gives a vector of input_len() entries
+    r is Ok <==> *measurement < self.length,
+    r is Ok ==> r->Ok_0@.len() == self.length,
+''')
     u.raw('''
 // proof_len() is exactly what Flp::prove allocates: arity + gadget_poly_len(degree, wire_poly_len(calls))
 fn hist_proof_len_matches_prove<F, S>(h: &Histogram<F, S>)
